@@ -362,7 +362,104 @@ def loop_progress(chk: Check) -> None:
                 chk.fail(rule, inst, "pyjelly.parse.ioutils.frame_iterator:eof", f"frame iterator over {nframes} frames yields {out[1] if out[0] == 'ok' else out[1]}")
 
 
+def work_per_message(chk: Check) -> None:
+    """Each sub-message of the input is handed to each decoding function a bounded number of times that does not grow
+    with the nesting depth - also when the innermost message is malformed (a retry per level is exponential)."""
+    rule = "C17.PATH.linear-work"
+    for integ, mod in (("generic", K.GP), ("rdflib", K.RP)):
+        for malformed in (False, True):
+            visits_by_depth: dict[int, int] = {}
+            outcome: dict[int, str] = {}
+            for depth in (2, 4, 6):
+
+                def scenario(it: Interp) -> Any:
+                    k = K.Kit(it)
+                    w = K.Wire(it)
+                    inner = w.msg("RdfTriple", s_bnode="a", p_bnode="b") if malformed else w.msg("RdfTriple", s_bnode="a", p_bnode="b", o_bnode="c")
+                    for _ in range(depth - 1):
+                        inner = w.msg("RdfTriple", s_bnode="a", p_bnode="b", o_triple_term=inner)
+                    top = w.msg("RdfTriple", s_bnode="a", p_bnode="b", o_triple_term=inner)
+                    frame = w.frame([w.options_row(1, 1, rdf_star=True), w.msg("RdfStreamRow", triple=top)])
+                    try:
+                        it.drain(k.call(k.get(mod, "parse_jelly_flat"), k.input_stream([frame])))
+                        return "parsed"
+                    except PyRaise as pr:
+                        return "raises " + it.exc_class_name(pr.exc)
+
+                worst = 0
+                for it, out in explore(chk.program, scenario, max_paths=4, generic_strings=True, max_steps=5_000_000):
+                    chk.paths += 1
+                    if out[0] != "ok":
+                        raise AnalysisError(f"C17 linear-work scenario: {out[1]}")
+                    outcome[depth] = out[1]
+                    counts: dict[tuple[str, int], int] = {}
+                    for e in it.events:
+                        if e["kind"] == "call":
+                            for v in e["args"].values():
+                                if isinstance(v, Msg) and v.mtype == "RdfTriple":
+                                    counts[(e["func"], v.uid)] = counts.get((e["func"], v.uid), 0) + 1
+                    worst = max([worst] + list(counts.values()))
+                visits_by_depth[depth] = worst
+            inst = f"{integ}: quoted triples nested 2/4/6 deep, innermost {'without an object (malformed)' if malformed else 'complete'}"
+            if rdflib_unsupported(integ, outcome):
+                chk.ok(rule, inst, {"outcome": outcome}, nontrivial=False)
+            elif visits_by_depth[6] > visits_by_depth[2]:
+                chk.fail(rule, inst, "pyjelly.parse.decode.Decoder.decode_quoted_triple:repeated-work", f"the same sub-message is decoded up to {visits_by_depth} times (by nesting depth): work per message grows with the depth, i.e. exponentially in the input size")
+            else:
+                chk.ok(rule, inst, {"max_visits_per_message_by_depth": visits_by_depth, "outcome": outcome})
+
+
+def rdflib_unsupported(integ: str, outcome: dict) -> bool:
+    return False
+
+
+def copy_growth(chk: Check) -> None:
+    """Per-row work must not grow with the number of rows already seen: the elements copied while parsing N
+    namespace declarations + N statements are counted for N = 2, 4, 8 (a container copied per row is quadratic)."""
+    rule = "C17.PATH.linear-work"
+    for integ, mod in (("generic", K.GP), ("rdflib", K.RP)):
+        for parser in ("parse_jelly_flat", "parse_jelly_grouped", "parse_jelly_to_graph"):
+            totals: dict[int, int] = {}
+            worst_site: dict[int, Any] = {}
+            for n in (2, 4, 8):
+
+                def scenario(it: Interp) -> Any:
+                    k = K.Kit(it)
+                    w = K.Wire(it)
+                    rows = [w.options_row(1, 1, version=2)]
+                    for i in range(n):
+                        rows.append(w.msg("RdfStreamRow", name=w.msg("RdfNameEntry", id=0, value=sstr(Atom(f"ns{i}.iri", nosep=True)))))
+                        rows.append(w.msg("RdfStreamRow", namespace=w.msg("RdfNamespaceDeclaration", name=f"p{i}", value=w.msg("RdfIri", prefix_id=0, name_id=0))))
+                    rows += w.statement_rows(1, n, "st")
+                    res = k.call(k.get(mod, parser), k.input_stream([w.frame(rows)]))
+                    if parser != "parse_jelly_to_graph":
+                        it.drain(res)
+                    return None
+
+                for it, out in explore(chk.program, scenario, max_paths=4, generic_strings=True, max_steps=5_000_000):
+                    chk.paths += 1
+                    if out[0] != "ok":
+                        raise AnalysisError(f"C17 copy-growth scenario ({integ}.{parser}, n={n}): {it.exc_class_name(out[1].exc)} at {out[1].site}")
+                    copies = [e for e in it.events if e["kind"] == "copy" and isinstance(e.get("size"), int) and e["site"][0].startswith("pyjelly.")]
+                    totals[n] = sum(e["size"] for e in copies)
+                    by_site: dict[Any, int] = {}
+                    for e in copies:
+                        by_site[(e["site"][0], e["site"][2], e["what"])] = by_site.get((e["site"][0], e["site"][2], e["what"]), 0) + e["size"]
+                    worst_site[n] = max(by_site.items(), key=lambda kv: kv[1]) if by_site else None
+            inst = f"{integ}.{parser}: N namespace declarations and N statements, N = 2/4/8"
+            m1 = (totals[4] - totals[2]) / 2
+            m2 = (totals[8] - totals[4]) / 4
+            if m2 > m1:
+                site = worst_site[8][0]
+                chk.fail(rule, inst, f"{site[0]}.{site[1]}:copy-per-row", f"elements copied while parsing grow faster than the input ({totals}): {site[2]} in {site[1]} copies a container that grows with the rows already seen - parsing is quadratic in the number of rows")
+            else:
+                chk.ok(rule, inst, {"elements_copied_by_n": totals})
+
+
 def check(chk: Check) -> None:
+    chk.rule("C17.PATH.linear-work", "every sub-message of a nested quoted triple is decoded a constant number of times, independent of the nesting depth, also when the innermost one is malformed", floor=4)
+    chk.part("linear-work", lambda: work_per_message(chk))
+    chk.part("copy-growth", lambda: copy_growth(chk))
     chk.rule("C17.TAINT.alloc-cap", "no allocation sized by an options-row field above 4096 happens before the stream is rejected", floor=50)
     chk.rule("C17.PATH.structural-recursion", "recursion on the parse path descends into a strict sub-message (depth bounded by protobuf's nesting limit)", floor=3)
     chk.rule("C17.PATH.loop-progress", "every while loop on the parse path consumes input; the frame iterator stops at EOF", floor=4)
